@@ -86,6 +86,8 @@ def quick():
     c.append(Cfg("full_model", (DS("ds1", T2, (0.0, 1.0, 2.0), global_megacomplexes=("gm1",)),), global_megacomplexes={"gm1": ("g1", "g2")}))
     c.append(Cfg("full_model_dep_weight", (DS("ds1", T3, (0.0, 1.0, 2.0, 3.0), global_megacomplexes=("gm1",), weight=True, mc_scales=True, order="gm"),), megacomplexes=M1D, global_megacomplexes={"gm1": ("g1",)}))
     c.append(Cfg("full_model_and_plain", (DS("ds1", T2, (0.0, 1.0), global_megacomplexes=("gm1", "gm2")), DS("ds2", T3, (0.0, 1.0), scale=True)), global_megacomplexes={"gm1": ("g1",), "gm2": ("g1", "g2")}))
+    c.append(Cfg("full_model_same_labels", (DS("ds1", T2, (0.0, 1.0, 2.0), global_megacomplexes=("gm1",), mc_scales=True),), global_megacomplexes={"gm1": ("s2", "s1")}))
+    c.append(Cfg("full_model_same_labels_dep", (DS("ds1", T3, (0.0, 1.0), global_megacomplexes=("gm1", "gm2"), weight=True),), megacomplexes=M1D, global_megacomplexes={"gm1": ("s1",), "gm2": ("s2", "s1")}))
     return c
 
 
